@@ -33,7 +33,7 @@ def main():
     sh('git', '-C', '/repo', 'worktree', 'remove', '--force', wt)
     assert sh('git', '-C', '/repo', 'worktree', 'add', '--detach', wt, 'HEAD').returncode == 0
     try:
-        for d in sorted((HERE / 'seeded').glob(f'{pid}-m*')):
+        for d in sorted((HERE / 'seeded').glob(f"{pid}-*m*")):
             if args.only and d.name != args.only:
                 continue
             sh('git', '-C', wt, 'checkout', '--', '.')
